@@ -1,17 +1,29 @@
 import PoxModel.Base.Proto
-import PoxModel.Model.Framing
+import PoxModel.Model.FramingIO
 open Pox Pox.Proto Pox.Framing
 
 def stName : Status → String
   | .alive => "alive" | .closed => "closed" | .dead => "dead"
 
-/-- request: {"side":"ctl"|"sw","chunks":[hex,...]}  →  per-chunk cumulative delivered counts, final delivered, buf -/
+/-- request: {"side":"ctl"|"sw","chunks":[hex,...]
+              [,"raising":[hex,...]   the handlers of these messages raise]
+              [,"end":true            after the last chunk the next read finds the end of the stream]}
+    →  per-chunk cumulative delivered counts, final delivered, buf, status -/
 def handle (j : J) : Except String J := do
   let side ← j.string "side"
+  if side ≠ "ctl" ∧ side ≠ "sw" then throw s!"unknown side {side}"
   let chunks ← (← j.array "chunks").mapM J.asBytes
-  let feed : CS Bytes → Bytes → CS Bytes := if side = "ctl" then ctlFeed sliceU 8 else swFeed sliceU
+  let raising ← match j.get? "raising" with
+    | some _ => do (← j.array "raising").mapM J.asBytes
+    | none => pure []
+  let fin ← match j.get? "end" with
+    | some _ => j.boolean "end"
+    | none => pure false
+  let feed : CS Bytes → Bytes → CS Bytes :=
+    if side = "ctl" then ctlFeedH sliceU (raisesOn raising) 8 else swFeedH sliceU (raisesOn raising)
   let (final, counts) := chunks.foldl (fun (acc : CS Bytes × List Nat) c =>
       let s' := feed acc.1 c; (s', acc.2 ++ [s'.delivered.length])) (init, [])
+  let final := if fin then connEnd final else final
   pure (J.mk [("delivered", J.arr (final.delivered.map J.ofBytes)), ("buf", J.ofBytes final.buf),
               ("status", J.str (stName final.st)), ("counts", J.ofNats counts)])
 
